@@ -720,6 +720,68 @@ mod h {
     nested_offsets!(c02_k1_nested_offsets_field1, 1);
     nested_offsets!(c02_k1_nested_offsets_field2, 2);
 
+    /// Lowerer::offset(var, n) denotes the address var + n for every u32 n: the same variable for
+    /// n = 0 (nothing emitted), otherwise a fresh pointer temporary defined by exactly one
+    /// Offset { from: var, offset: n }.
+    #[kani::proof]
+    #[kani::unwind(34)]
+    fn c02_k4_offset_is_base_plus_n() {
+        let mut ti = TypeInfo { ty_pool: base_pool() };
+        let r = rt();
+        let mut ctx = LowerCtx { runtime: &r, type_info: &mut ti };
+        let mut l = lowerer(&mut ctx);
+        let n: u32 = kani::any();
+        let v = l.offset(lvar(3), n);
+        let ok = if n == 0 {
+            v == lvar(3) && l.blocks[0].instructions.is_empty()
+        } else {
+            v != lvar(3)
+                && l.blocks[0].instructions.len() == 1
+                && matches!(&l.blocks[0].instructions[0], Instruction::Offset { to, from, offset } if *to == v && is_place(from, 3) && *offset == n)
+        };
+        assert!(ok, "OBL:C02.offsets.lowerer_offset_is_base_plus_n_with_one_offset_instruction");
+        kani::cover!(n == 0, "COV:C02.offsets.zero_offset_reached");
+        kani::cover!(n > 0, "COV:C02.offsets.nonzero_offset_reached");
+        core::mem::forget(l);
+    }
+
+    /// Lowerer::switch: the LIR Switch has the MIR branches and default; a MIR switch WITHOUT a
+    /// default (exhaustive match) makes its LAST branch the default and keeps all the others - for
+    /// every value the target is the branch whose index equals it, else the default / last branch.
+    #[kani::proof]
+    #[kani::unwind(34)]
+    fn c01_u5_switch_keeps_branches_and_default() {
+        let mut ti = TypeInfo { ty_pool: base_pool() };
+        let r = rt();
+        let mut ctx = LowerCtx { runtime: &r, type_info: &mut ti };
+        let mut l = lowerer(&mut ctx);
+        let (i0, i1, i2): (usize, usize, usize) = (kani::any(), kani::any(), kani::any());
+        kani::assume(i0 != i1 && i0 != i2 && i1 != i2);
+        let has_default: bool = kani::any();
+        let branches = vec![(i0, LabelRef(10)), (i1, LabelRef(11)), (i2, LabelRef(12))];
+        l.switch(mvar(3), branches, if has_default { Some(LabelRef(20)) } else { None });
+        let v: usize = kani::any();
+        let want = if v == i0 { LabelRef(10) } else if v == i1 { LabelRef(11) } else if v == i2 { LabelRef(12) } else if has_default { LabelRef(20) } else { LabelRef(12) };
+        let ok = l.blocks[0].instructions.len() == 1
+            && match &l.blocks[0].instructions[0] {
+                Instruction::Switch { examinee, branches, default } => {
+                    let mut t = *default;
+                    let mut k = 0;
+                    while k < 3 {
+                        if k < branches.len() && branches[k].0 == v {
+                            t = branches[k].1;
+                        }
+                        k += 1;
+                    }
+                    is_place(examinee, 3) && t == want && branches.len() <= 3
+                }
+                _ => false,
+            };
+        assert!(ok, "OBL:C01.lir.switch.target_is_the_branch_with_that_index_else_default_or_last_branch");
+        kani::cover!(!has_default && v == i2, "COV:C01.lir.switch.last_branch_as_default_reached");
+        core::mem::forget(l);
+    }
+
     /// bytes an emitted instruction sequence stores through `to` when it is read as a copy from
     /// `from`: Copy{size} stores size bytes; Read{tmp, from, ty} followed by Write{to, tmp} stores the
     /// width of ty. Anything else, or any other operand, is not a copy of the component (None).
